@@ -1,0 +1,29 @@
+//go:build verif
+
+// Package dns: machine-checked contracts (comment-only; read by /verif/govc).
+package dns
+
+//@ type Server
+//@   invariant wired [C13,C19]: nonnil(self.instance) && self.mgr != nil && self.dnsServer != nil && nonnil(self.dnsServer.PacketConn)
+
+// The answer comes from the first matching source in the fixed order
+// built-in API names, configured resolve entries, forbidden names, friends, stored mappings.
+//@ func Server.Lookup
+//@   ensures api-names-first [C19]: contains(srv.apiNames, domain) ==> result1 == SourceInternal && result0 == config.DefaultAPIAddress
+//@   ensures resolve-second [C19]: !contains(srv.apiNames, domain) && has(srv.instance.Config().Resolve, domain) ==> result1 == SourceResolveConfig && result0 == srv.instance.Config().Resolve[domain]
+//@   ensures forbidden-third [C19]: !contains(srv.apiNames, domain) && !has(srv.instance.Config().Resolve, domain) && contains(srv.forbiddenNames, domain) ==> result1 == SourceForbidden
+//@   ensures friend-fourth [C19]: !contains(srv.apiNames, domain) && !has(srv.instance.Config().Resolve, domain) && !contains(srv.forbiddenNames, domain) && hassuffix(domain, config.DefaultDotTLD) && has(srv.instance.Config().FriendsByName, cutsuffix(domain, config.DefaultDotTLD)) ==> result1 == SourceFriend && result0 == srv.instance.Config().FriendsByName[cutsuffix(domain, config.DefaultDotTLD)].IP
+//@   ensures mappings-cannot-shadow [C19]: result1 == SourceMapping ==> !contains(srv.apiNames, domain) && !has(srv.instance.Config().Resolve, domain) && !contains(srv.forbiddenNames, domain) && !(hassuffix(domain, config.DefaultDotTLD) && has(srv.instance.Config().FriendsByName, cutsuffix(domain, config.DefaultDotTLD)))
+//@   ensures sources [C19]: result1 == SourceInternal || result1 == SourceResolveConfig || result1 == SourceForbidden || result1 == SourceFriend || result1 == SourceMapping || result1 == SourceNone
+
+// Only names under .myco, only address-type queries of class IN/ANY and only answers that come from a source are
+// answered; everything else ends in replyNotFound. No *dns.Msg makes the handler panic.
+//@ func Server.handleRequest
+//@   requires wkr != nil && r != nil && nonnil(w)
+//@   callsite Server.reply only-myco-address-queries [C19]: hassuffix(queryName, config.DefaultTLDBetweenDots) && (q.Qtype == dns.TypeA || q.Qtype == dns.TypeAAAA || q.Qtype == dns.TypeSVCB || q.Qtype == dns.TypeHTTPS || q.Qtype == dns.TypeANY) && (q.Qclass == dns.ClassINET || q.Qclass == dns.ClassANY)
+//@   callsite Server.reply only-with-a-source [C19]: arg4 == SourceInternal || arg4 == SourceResolveConfig || arg4 == SourceFriend || arg4 == SourceMapping
+
+//@ func Server.replyMsg
+//@   requires wkr != nil && nonnil(w) && reply != nil
+//@ func Server.replyNotFound
+//@   requires wkr != nil && nonnil(w) && r != nil
